@@ -21,7 +21,8 @@ def plView (s : St) : String :=
 def plAddMode : String → Option AddMode
   | "accept" => some .accept | "suberr" => some .subErr | "reject" => some .reject
   | "nonjson" | "wrongshape" | "empty" | "malformedsig" => some .garbage
-  | "badsig" => some .wrongSigner | "suberr-until-reg" => some .subErrUntilReg | _ => none
+  | "badsig" => some .wrongSigner | "suberr-until-reg" => some .subErrUntilReg
+  | m => if m.startsWith "reject:" then some .reject else none
 
 def plRegMode : String → Option RegMode
   | "accept" => some .accept | "same" => some .same | "sameexpiry" => some .sameExpiry
